@@ -11,15 +11,22 @@
     `IdxInv i doc`    every installed map lists, per key, exactly the matching elements of `doc` in document
                       order (`Idx.Holds i (creationOrder doc)`); maps of disabled indexes are not constrained
                       (they are never read).
-    `Valid doc`       ids below the root are pairwise distinct (element identity) and no class list repeats a
-                      name.
+    `Valid doc`       ids below the root are pairwise distinct (element identity).  Nothing is assumed about the
+                      class lists: with a repeated name (`class="a a"`) the class map lists the element once per
+                      occurrence (`classU`, as `_indexClassName` does) and the lookups' `TagCollection(...)`
+                      de-duplicates (`Lemmas/IndexClass.lean`).
   C07a: parsing establishes `IdxInv` (the index is maintained while elements are created, in creation order).
   C07b: `reindex` with any arguments — hence `setRoot` — establishes it for any document however edited, from
         any reachable configuration (after `addIndexOnAttribute`, `removeIndexOnAttribute`, `disableIndexing`).
   C07c: under `IdxInv` every lookup, for every `root=` argument and both values of `useIndex`, returns what the
         unindexed search returns, which is the C06 specification.
+  The `useIndex=False` leg.  `idxBy… i doc q arg false` IS the plain scan `by… q (.parser doc arg)` by definition
+        (that is what the driver executes), so on that leg the `*_transparent` theorems compare the scan with itself.
+        The code's leg is another function: the base-class loop re-enters the indexed override for every child
+        (`idxBy…FB`, Model/Index.lean).  `*_fallback` prove that function equal to the plain scan under `IdxInv` —
+        so the definitional leg is justified by a theorem, not by the definition.
 -/
-import AHP.Lemmas.IndexInv
+import AHP.Lemmas.IndexFallback
 import AHP.Props.C06
 namespace AHP.C07
 open AHP AHP.G3 AHP.G3.Idx
@@ -28,7 +35,6 @@ def IdxInv (i : Idx) (doc : Node) : Prop := Holds i (creationOrder doc)
 
 structure Valid (doc : Node) : Prop where
   distinct : doc.Distinct
-  classes : ClassesNodup doc
 
 /-! #### every reachable configuration is well formed -/
 
@@ -76,24 +82,31 @@ theorem reachable_good (a b c d : Bool) (ops : List Cfg) : Good (ops.foldl apply
 
 /-- `parseStr` on a parser in any reachable configuration (also one that held another document before:
     `reset` clears every map): the index mirrors the new document. -/
-theorem parse_inv {i : Idx} (h : Good i) {doc : Node} (hc : ClassesNodup doc) : IdxInv (i.parse doc) doc := by
-  have := fold_holds (reset_good h.toKeys) (reset_holds i) (creationOrder doc) hc
+theorem parse_inv {i : Idx} (h : Good i) (doc : Node) : IdxInv (i.parse doc) doc := by
+  have := fold_holds (reset_good h.toKeys) (reset_holds i) (creationOrder doc)
   simpa [IdxInv, Idx.parse] using this
 
 /-- The multi-root fallback: a first pass has indexed some elements `es` when `MultipleRootNodeException`
     is raised; `reset` and the second pass give an index that mirrors the (wrapper-rooted) document. -/
-theorem parse_after_failed_pass {i : Idx} (h : Good i) (es : List Elem) {doc : Node} (hc : ClassesNodup doc) :
+theorem parse_after_failed_pass {i : Idx} (h : Good i) (es : List Elem) (doc : Node) :
     IdxInv ((es.foldl indexTag i.resetInternal).parse doc) doc :=
-  parse_inv (fold_good (reset_good h.toKeys) es) hc
+  parse_inv (fold_good (reset_good h.toKeys) es) doc
 
 /-! #### C07b — reindex, for every document and configuration -/
 
-theorem reindex_inv {i : Idx} (h : Good i) {doc : Node} (hc : ClassesNodup doc) (a b c d : Option Bool) :
+theorem reindex_inv {i : Idx} (h : Good i) (doc : Node) (a b c d : Option Bool) :
     IdxInv (i.reindex doc a b c d) doc := by
   simp only [IdxInv, Idx.reindex, indexRec_eq]
   have := fold_holds (reset_good (i := { i with indexIDs := optSet i.indexIDs a, indexNames := optSet i.indexNames b })
-      ⟨h.nodup, h.keys⟩) (reset_holds _) (creationOrder doc) hc
+      ⟨h.nodup, h.keys⟩) (reset_holds _) (creationOrder doc)
   simpa using this
+
+/-- what the class map holds after parse / reindex when the class index is on: under `c`, every element of the
+    document once per occurrence of `c` in its class list (`class="a a"`: twice), in document order; for class
+    lists without repeats that is the list of the matching elements (`classU_eq_matchU`) -/
+theorem class_map_contents {i : Idx} {doc : Node} (hi : IdxInv i doc) (hf : i.fnClassNames = true) (c : Str) :
+    assocGet i.classNameMap c = (creationOrder doc).flatMap (fun e => List.replicate (e.classes.count c) e.uid) :=
+  hi.classes hf c
 
 /-- `_indexTagRecursive` (reindex) and indexing at creation time (parse) build the same index. -/
 theorem reindex_eq_parse (i : Idx) (doc : Node) : i.reindex doc none none none none = i.parse doc := by
@@ -206,7 +219,7 @@ theorem byClassName_transparent {i : Idx} (hg : Good i) {doc : Node} (hi : IdxIn
         (if rest.isEmpty = true then resolve doc (assocGet i.classNameMap c)
          else (resolve doc (assocGet i.classNameMap c)).filter (fun n => pAllClasses rest n.elem)))).items
         = fil (pAllClasses (c :: rest)) (parserScope doc arg) := by
-      rw [hi.classes hf c, matchU_creationOrder, resolve_fil hd, first_then_rest]
+      rw [hi.classes hf c, resolve_classRep hd, classPath_dedup hd, first_then_rest]
       exact index_path' hd _ arg ha
     refine ⟨_, rfl, key, ?_⟩
     rw [hrp, Option.map_some, hitems, key]
@@ -384,7 +397,163 @@ theorem withAttrValues_plain {doc : Node} (hd : doc.Distinct) (a : Str) (vs : Li
   simp only [idxWithAttrValues, Bool.false_eq_true, if_false]
   exact C06.withAttrValues_parser a vs doc arg (scanRoot_distinct hd arg ha)
 
+/-! #### the `useIndex=False` leg as the code has it: the base-class loop re-enters the indexed override -/
+
+theorem scanRoot_mem {doc : Node} (arg : Option Node) (ha : ∀ r, arg = some r → r ∈ doc.preorder) :
+    (handleRootArg doc arg).1 ∈ doc.preorder := by
+  rcases handleRootArg_cases doc arg with ⟨h1, _⟩ | ⟨r, hr, h1, _⟩
+  · rw [h1]; simp [Node.preorder_eq doc]
+  · rw [h1]; exact ha r hr
+
+/-- `getElementsByTagName(q, root, useIndex=False)` on the indexed parser — the base-class method whose loop calls
+    `self.getElementsByTagName(q, child)`, i.e. the indexed override — returns the plain scan's collection. -/
+theorem byTagName_fallback {i : Idx} (hg : Good i) {doc : Node} (hi : IdxInv i doc) (hd : doc.Distinct)
+    (q : Str) (arg : Option Node) (ha : ∀ r, arg = some r → r ∈ doc.preorder) :
+    idxByTagNameFB i doc q arg = byTagName q (.parser doc arg) ∧
+    idxByTagNameFB i doc q arg = idxByTagName i doc q arg false := by
+  have key : idxByTagNameFB i doc q arg = byTagName q (.parser doc arg) := by
+    simp only [idxByTagNameFB, byTagName]
+    apply scanFB_eq_scanP _ _ _ (scanRoot_mem arg ha) hd
+    intro hu k hk
+    have hf : i.fnTagNames = true := by rw [hg.sync.2.2.2]; exact hu
+    rw [hi.tags hf q, matchU_creationOrder]
+    exact indexed_child hd _ hk
+  exact ⟨key, by rw [key]; simp [idxByTagName]⟩
+
+/-- `getElementsByName(…, useIndex=False)` (searched value non-empty) -/
+theorem byName_fallback {i : Idx} (hg : Good i) {doc : Node} (hi : IdxInv i doc) (hd : doc.Distinct)
+    (q : Str) (hq : q ≠ []) (arg : Option Node) (ha : ∀ r, arg = some r → r ∈ doc.preorder) :
+    idxByNameFB i doc q arg = byName q (.parser doc arg) ∧
+    idxByNameFB i doc q arg = idxByName i doc q arg false := by
+  have key : idxByNameFB i doc q arg = byName q (.parser doc arg) := by
+    simp only [idxByNameFB, byName]
+    apply scanFB_eq_scanP _ _ _ (scanRoot_mem arg ha) hd
+    intro hu k hk
+    have hf : i.fnNames = true := by rw [hg.sync.2.1]; exact hu
+    rw [hi.names hf q hq, matchU_creationOrder]
+    exact indexed_child hd _ hk
+  exact ⟨key, by rw [key]; simp [idxByName]⟩
+
+/-- `getElementsByAttr(…, useIndex=False)`: the re-entered call uses the attribute index iff the attribute is indexed -/
+theorem byAttr_fallback {i : Idx} (hg : Good i) {doc : Node} (hi : IdxInv i doc) (hd : doc.Distinct)
+    (a v : Str) (arg : Option Node) (ha : ∀ r, arg = some r → r ∈ doc.preorder) :
+    idxByAttrFB i doc a v arg = byAttr a v (.parser doc arg) ∧
+    idxByAttrFB i doc a v arg = idxByAttr i doc a v arg false := by
+  have key : idxByAttrFB i doc a v arg = byAttr a v (.parser doc arg) := by
+    simp only [idxByAttrFB, byAttr]
+    apply scanFB_eq_scanP _ _ _ (scanRoot_mem arg ha) hd
+    intro hu k hk
+    obtain ⟨m, hl⟩ := Option.isSome_iff_exists.mp hu
+    have hmem : a ∈ i.otherFns := (hg.keys a).mpr hu
+    rw [hl, Option.getD_some, hi.others a m hmem hl v, matchU_creationOrder]
+    exact indexed_child hd _ hk
+  exact ⟨key, by rw [key]; simp [idxByAttr]⟩
+
+/-- `getElementsByClassName(…, useIndex=False)`: the base class scans for the first name through the re-entering
+    loop (the re-entered call answers from the class map — repeated names included —, restricted to the child),
+    then filters by the other names -/
+theorem byClassName_fallback {i : Idx} (hg : Good i) {doc : Node} (hi : IdxInv i doc) (hd : doc.Distinct)
+    (q : Str) (arg : Option Node) (ha : ∀ r, arg = some r → r ∈ doc.preorder) :
+    idxByClassNameFB i doc q arg = byClassName q (.parser doc arg) ∧
+    idxByClassNameFB i doc q arg = idxByClassName i doc q arg false := by
+  have key : idxByClassNameFB i doc q arg = byClassName q (.parser doc arg) := by
+    simp only [idxByClassNameFB, byClassName]
+    cases hw : classWords q with
+    | nil => rfl
+    | cons c rest =>
+      simp only
+      rw [reenterL_eq_descScanL _ (scanRoot_mem arg ha) hd]
+      intro hu k hk
+      have hf : i.fnClassNames = true := by rw [hg.sync.2.2.1]; exact hu
+      rw [hi.classes hf c, resolve_classRep hd]
+      have := classPath_dedup hd c [] false k
+      simp only [List.isEmpty_nil, if_true] at this
+      rw [this]
+      simp only [restrict, Bool.false_eq_true, if_false]
+      rw [restrict_desc hd hk]
+      exact TC.ofList_items_of_nodup
+        (uids_nodup_of_sublist (fil_sublist _ _) (Node.Distinct.desc (distinct_of_mem hd k hk)))
+  exact ⟨key, by rw [key]; simp [idxByClassName]⟩
+
+/-- the index branch of a re-entered `getElementById(q, child)`: with the id unique in the document, the first
+    match below the child -/
+theorem byId_indexed_child {i : Idx} {doc : Node} (hi : IdxInv i doc) (hd : doc.Distinct) (hf : i.fnIDs = true)
+    (q : Str) (hq : q ≠ []) (huniq : (fil (pAttr (str "id") q) doc.preorder).length ≤ 1) {k : Node}
+    (hk : k ∈ doc.preorder) :
+    idIndexedAt i doc q k = (fil (pAttr (str "id") q) k.desc).head? := by
+  unfold idIndexedAt
+  rw [hi.ids hf q hq, matchU_creationOrder]
+  have hdesc : k.desc.Sublist doc.preorder := by
+    have := preorder_sublist_of_mem doc k hk
+    rw [Node.preorder_eq k] at this
+    exact (List.sublist_cons_self _ _).trans this
+  have hsub : (fil (pAttr (str "id") q) k.desc).Sublist (fil (pAttr (str "id") q) doc.preorder) := hdesc.filter _
+  cases hL : fil (pAttr (str "id") q) doc.preorder with
+  | nil =>
+    rw [hL] at hsub
+    simp [uidsOf, List.sublist_nil.mp hsub]
+  | cons a rest =>
+    have hrest : rest = [] := by
+      rw [hL] at huniq
+      simp at huniq
+      exact huniq
+    subst hrest
+    have ha_mem : a ∈ doc.preorder := (fil_sublist _ _).subset (hL ▸ List.mem_cons_self)
+    have hfind : doc.find? a.uid = some a := find?_mem a.uid doc hd a ha_mem rfl
+    simp only [uidsOf, List.map_cons, List.map_nil, List.getLast?_singleton, Option.bind_some, hfind]
+    have := restrict_desc hd hk (pAttr (str "id") q)
+    rw [hL] at this
+    rw [← this]
+    cases hh : hasTagInParentLine doc a.uid k <;> simp [hh]
+
+/-- `getElementById(…, useIndex=False)` (id unique and non-empty — as the property says) -/
+theorem byId_fallback {i : Idx} (hg : Good i) {doc : Node} (hi : IdxInv i doc) (hd : doc.Distinct)
+    (q : Str) (hq : q ≠ []) (huniq : (fil (pAttr (str "id") q) doc.preorder).length ≤ 1)
+    (arg : Option Node) (ha : ∀ r, arg = some r → r ∈ doc.preorder) :
+    idxByIdFB i doc q arg = byId q (.parser doc arg) ∧
+    idxByIdFB i doc q arg = idxById i doc q arg false := by
+  have key : idxByIdFB i doc q arg = byId q (.parser doc arg) := by
+    simp only [idxByIdFB, byId, firstP]
+    have hr := scanRoot_mem arg ha
+    have hH : i.indexIDs = true → ∀ k ∈ doc.preorder,
+        idIndexedAt i doc q k = (fil (pAttr (str "id") q) k.desc).head? := by
+      intro hu k hk
+      have hf : i.fnIDs = true := by rw [hg.sync.1]; exact hu
+      exact byId_indexed_child hi hd hf q hq huniq hk
+    have := reenterFirstL_eq (root := doc) hH (handleRootArg doc arg).1.kids (kids_mem_of_mem hr)
+    rw [this]
+    cases hn : (handleRootArg doc arg).1 with
+    | mk e ks => simp [descFirst, Node.kids]
+  exact ⟨key, by rw [key]; simp [idxById]⟩
+
+/-- `getElementsWithAttrValues(…, useIndex=False)` does not re-enter the override (the base class delegates to the
+    element form): this leg of the model is the code's, literally. -/
+theorem withAttrValues_fallback (i : Idx) (doc : Node) (a : Str) (vs : List Str) (arg : Option Node) :
+    idxWithAttrValues i doc a vs arg false = withAttrValues a vs (.parser doc arg) := by
+  simp [idxWithAttrValues]
+
 /-! #### the whole class: a parser in any configuration, after parse or reindex, answers as the plain search -/
+
+theorem addIndexes_good (a b c d : Bool) (attrs : List Str) : Good (attrs.foldl Idx.addIndexOn (Idx.init a b c d)) := by
+  have key : ∀ (attrs : List Str) (j : Idx), Good j → Good (attrs.foldl Idx.addIndexOn j) := by
+    intro attrs
+    induction attrs with
+    | nil => intro j h; exact h
+    | cons x xs ih => intro j h; exact ih _ (addIndexOn_good h x)
+  exact key attrs _ (init_good a b c d)
+
+/-- Right after parsing — all 16 flag combinations, any attribute indexes added before, ANY document (repeated class
+    names included) — the state is well formed and the index mirrors the document. -/
+theorem after_parse_state (a b c d : Bool) (attrs : List Str) (doc : Node) :
+    Good ((attrs.foldl Idx.addIndexOn (Idx.init a b c d)).parse doc) ∧
+    IdxInv ((attrs.foldl Idx.addIndexOn (Idx.init a b c d)).parse doc) doc :=
+  ⟨parse_good (addIndexes_good a b c d attrs) doc, parse_inv (addIndexes_good a b c d attrs) doc⟩
+
+/-- After any edit history (the document is whatever it is now) and any reconfiguration, `reindex` — with or without
+    new flags — re-establishes both. -/
+theorem after_reindex_state {i : Idx} (hg : Good i) (doc : Node) (na nb nc nd : Option Bool) :
+    Good (i.reindex doc na nb nc nd) ∧ IdxInv (i.reindex doc na nb nc nd) doc :=
+  ⟨reindex_good hg doc na nb nc nd, reindex_inv hg doc na nb nc nd⟩
 
 /-- Right after parsing, for all 16 flag combinations, any attribute indexes added before, any query. -/
 theorem after_parse (a b c d : Bool) (attrs : List Str) {doc : Node} (hv : Valid doc)
@@ -392,22 +561,119 @@ theorem after_parse (a b c d : Bool) (attrs : List Str) {doc : Node} (hv : Valid
     let i := (attrs.foldl Idx.addIndexOn (Idx.init a b c d)).parse doc
     (idxByTagName i doc q arg useIndex).items = (byTagName q (.parser doc arg)).items := by
   intro i
-  have hg0 : Good (attrs.foldl Idx.addIndexOn (Idx.init a b c d)) := by
-    have key : ∀ (attrs : List Str) (j : Idx), Good j → Good (attrs.foldl Idx.addIndexOn j) := by
-      intro attrs
-      induction attrs with
-      | nil => intro j h; exact h
-      | cons x xs ih => intro j h; exact ih _ (addIndexOn_good h x)
-    exact key attrs _ (init_good a b c d)
-  exact (byTagName_transparent (parse_good hg0 doc) (parse_inv hg0 hv.classes) hv.distinct q arg ha useIndex).1
+  have hs := after_parse_state a b c d attrs doc
+  exact (byTagName_transparent hs.1 hs.2 hv.distinct q arg ha useIndex).1
+
+theorem after_parse_byName (a b c d : Bool) (attrs : List Str) {doc : Node} (hv : Valid doc)
+    (q : Str) (hq : q ≠ []) (arg : Option Node) (ha : ∀ r, arg = some r → r ∈ doc.preorder) (useIndex : Bool) :
+    let i := (attrs.foldl Idx.addIndexOn (Idx.init a b c d)).parse doc
+    (idxByName i doc q arg useIndex).items = (byName q (.parser doc arg)).items ∧
+    (idxByName i doc q arg useIndex).items = fil (pAttr (str "name") q) (parserScope doc arg) := by
+  intro i
+  have hs := after_parse_state a b c d attrs doc
+  exact byName_transparent hs.1 hs.2 hv.distinct q hq arg ha useIndex
+
+theorem after_parse_byAttr (a b c d : Bool) (attrs : List Str) {doc : Node} (hv : Valid doc)
+    (k v : Str) (arg : Option Node) (ha : ∀ r, arg = some r → r ∈ doc.preorder) (useIndex : Bool) :
+    let i := (attrs.foldl Idx.addIndexOn (Idx.init a b c d)).parse doc
+    (idxByAttr i doc k v arg useIndex).items = (byAttr k v (.parser doc arg)).items ∧
+    (idxByAttr i doc k v arg useIndex).items = fil (pAttr k v) (parserScope doc arg) := by
+  intro i
+  have hs := after_parse_state a b c d attrs doc
+  exact byAttr_transparent hs.1 hs.2 hv.distinct k v arg ha useIndex
+
+/-- class queries: documents with repeated class names included -/
+theorem after_parse_byClassName (a b c d : Bool) (attrs : List Str) {doc : Node} (hv : Valid doc)
+    (q w : Str) (rest : List Str) (hw : classWords q = w :: rest)
+    (arg : Option Node) (ha : ∀ r, arg = some r → r ∈ doc.preorder) (useIndex : Bool) :
+    let i := (attrs.foldl Idx.addIndexOn (Idx.init a b c d)).parse doc
+    ∃ r, idxByClassName i doc q arg useIndex = some r ∧
+      r.items = fil (pAllClasses (w :: rest)) (parserScope doc arg) ∧
+      (byClassName q (.parser doc arg)).map TC.items = some r.items := by
+  intro i
+  have hs := after_parse_state a b c d attrs doc
+  exact byClassName_transparent hs.1 hs.2 hv.distinct q w rest hw arg ha useIndex
+
+theorem after_parse_byId (a b c d : Bool) (attrs : List Str) {doc : Node} (hv : Valid doc)
+    (q : Str) (hq : q ≠ []) (huniq : (fil (pAttr (str "id") q) doc.preorder).length ≤ 1)
+    (arg : Option Node) (ha : ∀ r, arg = some r → r ∈ doc.preorder) (useIndex : Bool) :
+    let i := (attrs.foldl Idx.addIndexOn (Idx.init a b c d)).parse doc
+    idxById i doc q arg useIndex = byId q (.parser doc arg) ∧
+    idxById i doc q arg useIndex = (fil (pAttr (str "id") q) (parserScope doc arg)).head? := by
+  intro i
+  have hs := after_parse_state a b c d attrs doc
+  exact byId_transparent hs.1 hs.2 hv.distinct q hq huniq arg ha useIndex
+
+theorem after_parse_withAttrValues (a b c d : Bool) (attrs : List Str) {doc : Node} (hv : Valid doc)
+    (k : Str) (vs : List Str) (arg : Option Node) (ha : ∀ r, arg = some r → r ∈ doc.preorder) (useIndex : Bool) :
+    let i := (attrs.foldl Idx.addIndexOn (Idx.init a b c d)).parse doc
+    (idxWithAttrValues i doc k vs arg useIndex).ids.Nodup ∧
+    ∀ u, u ∈ (idxWithAttrValues i doc k vs arg useIndex).ids ↔ u ∈ uidsOf (fil (pVals k vs) (parserScope doc arg)) := by
+  intro i
+  have hs := after_parse_state a b c d attrs doc
+  exact withAttrValues_transparent hs.1 hs.2 hv.distinct k vs arg ha useIndex
 
 /-- After any edit history (the document is whatever it is now) and any reconfiguration, `reindex` — with
     or without new flags — makes every lookup transparent again. -/
 theorem after_reindex {i : Idx} (hg : Good i) {doc : Node} (hv : Valid doc) (na nb nc nd : Option Bool)
     (q : Str) (arg : Option Node) (ha : ∀ r, arg = some r → r ∈ doc.preorder) (useIndex : Bool) :
     (idxByTagName (i.reindex doc na nb nc nd) doc q arg useIndex).items = (byTagName q (.parser doc arg)).items :=
-  (byTagName_transparent (reindex_good hg doc na nb nc nd) (reindex_inv hg hv.classes na nb nc nd) hv.distinct
+  (byTagName_transparent (reindex_good hg doc na nb nc nd) (reindex_inv hg doc na nb nc nd) hv.distinct
     q arg ha useIndex).1
+
+theorem after_reindex_byName {i : Idx} (hg : Good i) {doc : Node} (hv : Valid doc) (na nb nc nd : Option Bool)
+    (q : Str) (hq : q ≠ []) (arg : Option Node) (ha : ∀ r, arg = some r → r ∈ doc.preorder) (useIndex : Bool) :
+    (idxByName (i.reindex doc na nb nc nd) doc q arg useIndex).items = (byName q (.parser doc arg)).items ∧
+    (idxByName (i.reindex doc na nb nc nd) doc q arg useIndex).items
+      = fil (pAttr (str "name") q) (parserScope doc arg) :=
+  have hs := after_reindex_state hg doc na nb nc nd
+  byName_transparent hs.1 hs.2 hv.distinct q hq arg ha useIndex
+
+theorem after_reindex_byAttr {i : Idx} (hg : Good i) {doc : Node} (hv : Valid doc) (na nb nc nd : Option Bool)
+    (k v : Str) (arg : Option Node) (ha : ∀ r, arg = some r → r ∈ doc.preorder) (useIndex : Bool) :
+    (idxByAttr (i.reindex doc na nb nc nd) doc k v arg useIndex).items = (byAttr k v (.parser doc arg)).items ∧
+    (idxByAttr (i.reindex doc na nb nc nd) doc k v arg useIndex).items = fil (pAttr k v) (parserScope doc arg) :=
+  have hs := after_reindex_state hg doc na nb nc nd
+  byAttr_transparent hs.1 hs.2 hv.distinct k v arg ha useIndex
+
+theorem after_reindex_byClassName {i : Idx} (hg : Good i) {doc : Node} (hv : Valid doc) (na nb nc nd : Option Bool)
+    (q w : Str) (rest : List Str) (hw : classWords q = w :: rest)
+    (arg : Option Node) (ha : ∀ r, arg = some r → r ∈ doc.preorder) (useIndex : Bool) :
+    ∃ r, idxByClassName (i.reindex doc na nb nc nd) doc q arg useIndex = some r ∧
+      r.items = fil (pAllClasses (w :: rest)) (parserScope doc arg) ∧
+      (byClassName q (.parser doc arg)).map TC.items = some r.items :=
+  have hs := after_reindex_state hg doc na nb nc nd
+  byClassName_transparent hs.1 hs.2 hv.distinct q w rest hw arg ha useIndex
+
+theorem after_reindex_byId {i : Idx} (hg : Good i) {doc : Node} (hv : Valid doc) (na nb nc nd : Option Bool)
+    (q : Str) (hq : q ≠ []) (huniq : (fil (pAttr (str "id") q) doc.preorder).length ≤ 1)
+    (arg : Option Node) (ha : ∀ r, arg = some r → r ∈ doc.preorder) (useIndex : Bool) :
+    idxById (i.reindex doc na nb nc nd) doc q arg useIndex = byId q (.parser doc arg) ∧
+    idxById (i.reindex doc na nb nc nd) doc q arg useIndex
+      = (fil (pAttr (str "id") q) (parserScope doc arg)).head? :=
+  have hs := after_reindex_state hg doc na nb nc nd
+  byId_transparent hs.1 hs.2 hv.distinct q hq huniq arg ha useIndex
+
+theorem after_reindex_withAttrValues {i : Idx} (hg : Good i) {doc : Node} (hv : Valid doc) (na nb nc nd : Option Bool)
+    (k : Str) (vs : List Str) (arg : Option Node) (ha : ∀ r, arg = some r → r ∈ doc.preorder) (useIndex : Bool) :
+    (idxWithAttrValues (i.reindex doc na nb nc nd) doc k vs arg useIndex).ids.Nodup ∧
+    ∀ u, u ∈ (idxWithAttrValues (i.reindex doc na nb nc nd) doc k vs arg useIndex).ids ↔
+         u ∈ uidsOf (fil (pVals k vs) (parserScope doc arg)) :=
+  have hs := after_reindex_state hg doc na nb nc nd
+  withAttrValues_transparent hs.1 hs.2 hv.distinct k vs arg ha useIndex
+
+/-- the `useIndex=False` leg after parse, as the code has it, for every class query (the other four likewise by
+    `by*_fallback` with `after_parse_state`) -/
+theorem after_parse_fallback (a b c d : Bool) (attrs : List Str) {doc : Node} (hv : Valid doc)
+    (q : Str) (arg : Option Node) (ha : ∀ r, arg = some r → r ∈ doc.preorder) :
+    let i := (attrs.foldl Idx.addIndexOn (Idx.init a b c d)).parse doc
+    idxByTagNameFB i doc q arg = byTagName q (.parser doc arg) ∧
+    idxByClassNameFB i doc q arg = byClassName q (.parser doc arg) ∧
+    (∀ v, idxByAttrFB i doc q v arg = byAttr q v (.parser doc arg)) := by
+  intro i
+  have hs := after_parse_state a b c d attrs doc
+  exact ⟨(byTagName_fallback hs.1 hs.2 hv.distinct q arg ha).1, (byClassName_fallback hs.1 hs.2 hv.distinct q arg ha).1,
+    fun v => (byAttr_fallback hs.1 hs.2 hv.distinct q v arg ha).1⟩
 
 /-! #### Non-vacuity -/
 section Examples
@@ -422,6 +688,30 @@ example : docX.Distinct ∧ ClassesNodup docX := by
 example : (idxByTagName cfgX docX (str "p") none true).ids = [1, 2] := by decide
 example : (idxByClassName cfgX docX (str "b  a") (some (.mk eB [.mk eC []])) true).map TC.ids = some [2] := by decide
 example : (idxById cfgX docX (str "r") none true).map Node.uid = some 0 := by decide
+
+/-- a document with repeated class names (`<div class="a a"><p class="b a b"><p class="a"></p></p></div>`): it is
+    `Valid`, the class map lists an element once per occurrence, the lookups list it once -/
+def eR0 : Elem := ⟨0, str "div", [(str "id", str "r")], [str "a", str "a"], []⟩
+def eR1 : Elem := ⟨1, str "p", [], [str "b", str "a", str "b"], []⟩
+def eR2 : Elem := ⟨2, str "p", [], [str "a"], []⟩
+def docR : Node := .mk eR0 [.mk eR1 [.mk eR2 []]]
+def cfgR : Idx := (Idx.init true true true true).parse docR
+example : Valid docR := ⟨by unfold Node.Distinct; decide⟩
+example : ¬ ClassesNodup docR := by
+  intro h
+  exact absurd (h eR0 (by simp [creationOrder, docR])) (by decide)
+example : assocGet cfgR.classNameMap (str "a") = [0, 0, 1, 2] ∧ assocGet cfgR.classNameMap (str "b") = [1, 1] := by decide
+example : (idxByClassName cfgR docR (str "a") none true).map TC.ids = some [0, 1, 2] := by decide
+example : (idxByClassName cfgR docR (str "a b") none true).map TC.ids = some [1] := by decide
+example : (idxByClassName cfgR docR (str "a") (some (.mk eR1 [.mk eR2 []])) true).map TC.ids = some [2] := by decide
+/-- the `useIndex=False` leg as the code runs it (re-entering the index below the first level), on the same document -/
+example : (idxByClassNameFB cfgR docR (str "a") none).map TC.ids = some [0, 1, 2] := by decide
+example : (idxByTagNameFB cfgR docR (str "p") none).ids = [1, 2] := by decide
+example : (idxByIdFB cfgR docR (str "r") none).map Node.uid = some 0 := by decide
+/-- … and with a STALE index (`IdxInv` fails: the maps were built for another document) the code's leg is not the plain
+    scan — the hypothesis of `*_fallback` is needed, the leg is not definitional in the code -/
+example : (idxByTagNameFB ((Idx.init true true true true).parse (.mk eR0 [])) docR (str "p") none).ids = [1]
+    ∧ (byTagName (str "p") (.parser docR none)).ids = [1, 2] := by decide
 end Examples
 
 end AHP.C07
